@@ -340,6 +340,35 @@ def run_strace(spec, ctx, rng, u):
         if sc.expect is not None and os.path.exists(sc.P):
             # a decodable, selected PEL with working output is expected to be cleaned (otherwise nothing is exercised)
             ctx.count("clean.not_removed")
+        # a file-size limit (RLIMIT_FSIZE, what a full disk or an exhausted quota looks like to the writer): the kernel takes
+        # the bytes up to the limit - write(2) returns a SHORT count - and fails the next write with EFBIG.  Real kernel
+        # behaviour, no tracer: only the post-state oracle applies (input gone => output complete).
+        if sc.expect is not None and (sc.mode.startswith("json") or sc.sk == "file"):
+            n = len(sc.expect.encode())
+            for limit in sorted({0, 1, n // 2, max(0, n - 1), 1024, 4096, 8192} if k % 2 == 0 else {rng.randrange(0, n + 1), 1024}):
+                if limit > n:
+                    continue
+                sc.fresh()
+                so, cleanup = sc.open_stdout()
+                try:
+                    import resource
+                    import subprocess
+                    p = subprocess.run([env.PY, env.PELTOOL] + list(sc.argv()), stdin=subprocess.DEVNULL,
+                                       env=env.child_env(registry=True, extra={"PYTHONDONTWRITEBYTECODE": "1"}),
+                                       stdout=so if so is not None else subprocess.PIPE, stderr=subprocess.PIPE, timeout=120,
+                                       preexec_fn=lambda: resource.setrlimit(resource.RLIMIT_FSIZE, (limit, limit)))
+                except subprocess.TimeoutExpired:
+                    ctx.count("fsize.watchdog")
+                    continue
+                finally:
+                    cleanup()
+                ctx.count("fsize.runs")
+                if not os.path.exists(sc.P):
+                    ctx.count("fsize.input_removed")
+                ctx.see("fsize.exit", p.returncode)
+                ctx.current = {"scenario": [mode, pelv, sk], "argv": sc.argv(), "inject": "rlimit-fsize=%d" % limit}
+                ctx.case("%s|%s|%s|fsize%d|%d" % (mode, pelv, sk, limit, spec["rseed"]), True)
+                check_run(ctx, sc, [], None, p, "rlimit-fsize=%d" % limit)
         pts = injection_points(ev, sc)
         ctx.see("window", len(pts))
         writes = [p for p in pts if p[0] == "write"]
